@@ -43,7 +43,7 @@ struct Outcome {
 	uint16_t qtype_seen = 0; char name0 = 0;
 };
 
-inline Outcome roundtrip(const Conf &c, const Bytes &payload, uint16_t qid = 0x4242)
+inline Outcome roundtrip(const Conf &c, const Bytes &payload, uint16_t qid = 0x4242, int cut_permille = 0)
 {
 	Outcome o;
 	sim::W.capture_on = true;
@@ -61,6 +61,7 @@ inline Outcome roundtrip(const Conf &c, const Bytes &payload, uint16_t qid = 0x4
 		o.ref_exact = a.payload == payload;
 	}
 	sim::Datagram dg; dg.data = o.wire;
+	if (cut_permille > 0 && o.wire.size() > 12) dg.data.resize(12 + (o.wire.size() - 12) * (size_t)cut_permille / 1000);   // cut short in transit
 	sim::W.feed.push_back(dg);
 	std::vector<char> buf(c.buflen + 64, (char)0xEE);
 	unsigned short ty = 0, id = 0, rc = 0; char n0 = 0;
